@@ -621,3 +621,60 @@ func (c *Ctx) describeOperand(v ssa.Value) string {
 	}
 	return "v:" + v.Name()
 }
+
+// SuccessAfter: for every path from the entry of fn to `via`, continue from
+// the state reached there (plus assume) and report a success return that is
+// reachable without passing isBarrier.
+func (c *Ctx) SuccessAfter(fn *ssa.Function, via ssa.Instruction, pre, assume map[string]bool, isBarrier func(ssa.Instruction) bool) (*eng.Hit, bool, int) {
+	x1 := c.explorer(fn)
+	x1.Assume = pre
+	x1.Target = func(in ssa.Instruction, st *eng.State) bool { return in == via }
+	x1.StopAtTarget = true
+	hits := x1.Run()
+	if x1.Exhausted {
+		return nil, true, 0
+	}
+	for i := range hits {
+		x2 := c.explorer(fn)
+		x2.From = via
+		x2.Init = hits[i].St
+		as := map[string]bool{}
+		for k, v := range pre {
+			as[k] = v
+		}
+		for k, v := range assume {
+			as[k] = v
+		}
+		x2.Assume = as
+		x2.Barrier = func(in ssa.Instruction, st *eng.State) bool { return isBarrier(in) }
+		x2.Target = func(in ssa.Instruction, st *eng.State) bool { return x2.IsSuccessReturn(in, st) }
+		x2.StopAtTarget = true
+		h := x2.Run()
+		if x2.Exhausted {
+			return nil, true, len(hits)
+		}
+		if len(h) > 0 {
+			h[0].Trace = append(append([]int(nil), hits[i].Trace...), h[0].Trace...)
+			return &h[0], false, len(hits)
+		}
+	}
+	return nil, false, len(hits)
+}
+
+// ObSuccessAfter records the obligation of SuccessAfter.
+func (c *Ctx) ObSuccessAfter(rule, construct string, fn *ssa.Function, via ssa.Instruction, pre, assume map[string]bool, isBarrier func(ssa.Instruction) bool, what string) bool {
+	hit, und, n := c.SuccessAfter(fn, via, pre, assume, isBarrier)
+	switch {
+	case und:
+		c.R.Undecided(rule, construct, c.pos(via), "state limit exceeded while exploring "+c.name(fn))
+		return false
+	case n == 0:
+		c.R.Fail(rule, construct, c.pos(via), "the site is not reachable from the entry of "+c.name(fn)+" under the stated assumptions (dead code or moved anchor)")
+		return false
+	case hit != nil:
+		c.R.Fail(rule, construct, c.pos(hit.Instr), fmt.Sprintf("after this site a success return of %s is reachable without %s; path %s", c.name(fn), what, eng.BlockTrace(fn, hit.Trace)))
+		return false
+	}
+	c.R.OK(rule, construct, c.pos(via), fmt.Sprintf("on each of the %d path state(s) reaching this site, no success return is reachable without %s", n, what))
+	return true
+}
